@@ -160,7 +160,8 @@ def tsv_roundtrip(d, rows, first, ext):
 def simple_roundtrip(d, pairs, ext):
     from phylib.utils._misc import _write_tsv_simple, _read_tsv_simple
     p = d / ('s' + ext)
-    _write_tsv_simple(p, 'group', {cid: build_cell(c) for cid, c in pairs})
+    # (the mapping is built in DESCENDING id order: the order of insertion is not the order of the ids)
+    _write_tsv_simple(p, 'group', {cid: build_cell(c) for cid, c in sorted(pairs, key=lambda x: -x[0])})
     got = _read_tsv_simple(p)
     if not pairs and got == {}:
         return 'group', []
